@@ -238,7 +238,9 @@ class LDAPSession:
 
                 self._process_incoming_message(msg)
 
-        except (ValueError, NotImplementedError) as e:
+        except (ValueError, NotImplementedError, RecursionError) as e:
+            # RecursionError is raised for data nested deeper than can be
+            # unpacked, treat it like any other invalid data.
             self.state = SessionState.CLOSED
             self._outstanding_requests = set()
             raise ProtocolError(f"Received invalid data from the peer, connection closing: {e}") from e
